@@ -631,7 +631,7 @@ func (e *c13Env) run(t testing.TB, r *vreport.Report, hist []string) {
 func TestVerifC13(t *testing.T) {
 	r := vreport.Begin("C13")
 	defer r.Finish(t)
-	r.Rule("every sequence of up to D world events from a 16-symbol alphabet (document channel moves, two-channel document, channel removal, delete; admin channels of the user; role assignment, role channels, role deletion; granting document for the user / for the role, grant removal, granting-document delete) x every placement of pulls after events (the last event is always followed by a pull) x paging limit {0,1,2}; plus, from a populated world (user with channel A directly and B through a role, six documents in A, one in A and B, client caught up; query pagination 2), every sequence of D-1 events x pull placements x limit {0,2,5}; plus open (continuous) pulls: from three base histories the client opens one pull and keeps it open through every sequence of D-1 further events, judged after each once a marker document has come through the feed; the client resumes from the last position it received with revocations on; non-trivial = distinct (world sequence, pull placement, limit)")
+	r.Rule("every sequence of up to D world events from a 16-symbol alphabet (document channel moves, two-channel document, channel removal, delete; admin channels of the user; role assignment, role channels, role deletion; granting document for the user / for the role, grant removal, granting-document delete) x every placement of pulls after events (the last event is always followed by a pull) x paging limit {0,1,2}; plus, from a populated world (user with channel A directly and B through a role, six documents in A, one in A and B, client caught up; query pagination 2), every sequence of D-1 events x pull placements x limit {0,2,5}; plus open (continuous) pulls: from four base histories the client opens one pull and keeps it open through every sequence of D-1 further events, judged after each once a marker document has come through the feed; the client resumes from the last position it received with revocations on; non-trivial = distinct (world sequence, pull placement, limit)")
 	r.Assume("the client follows the replication protocol's rules: it drops a document on deleted / revoked / removed-from-all-visible-channels, otherwise fetches the announced revision as the user; world events and pulls interleave at operation granularity with the mutation feed drained before each pull")
 	e := &c13Env{}
 	fresh := func() {
@@ -762,6 +762,7 @@ func TestVerifC13(t *testing.T) {
 		{"u:A", "d1:A", "d2:AB", "pull:0", "open"},
 		{"u+r", "r:B", "u:A", "d1:A", "d2:AB", "pull:0", "open"},
 		{"d1:A", "d2:AB", "open"},
+		{"u:A", "d1:B", "d2:AB", "pull:0", "open"}, // a document in a channel the user does not have yet
 	}
 	D3 := 2
 	if r.Thorough() {
